@@ -22,7 +22,7 @@ type cgen struct {
 	feats map[string]bool
 }
 
-func (g *cgen) pick(label string, n int) int          { return Uniform(g.t, label, n) }
+func (g *cgen) pick(label string, n int) int      { return Uniform(g.t, label, n) }
 func (g *cgen) chance(label string, pct int) bool { return Chance(g.t, label, pct) }
 func (g *cgen) lit(label string) uint64 {
 	return []uint64{1, 2, 3, 5, 7, 10, 100, 255, 1 << 32, 1<<64 - 1}[g.pick(label, 10)]
